@@ -195,6 +195,19 @@ CLAIMED.update({
             "DESIGN.md §3 C08"),
 })
 
+CLAIMED.update({
+    "C09": ("Liveness reduced to a safety condition the rig can observe: the protocol's single receiver/sender thread must never be "
+            "parked in a wait that only inbound data can release when disconnect handling starts, and no sender may wait for a block "
+            "nobody can send. From the buffer state 'first j bytes of a frame' for every cut offset j (arbitrary header, body <= 2, both "
+            "session states) the close sequence of the connection is run on the real HsmsProtocol: it must finish, report NOT "
+            "CONNECTED with an empty buffer, and a following connection must decode and answer a Select.req. The same scenario is "
+            "replayed on real dispatcher threads for every cut offset (3 s limit).",
+            "Trusted: CrossHair + chx, the Park model of blocking waits (rigs/park.py), oracles/refe37.py. NOT claimed (not encodable): "
+            "TcpServerConnection/TcpClientConnection enable()/disable() stop-flag handshakes and TcpConnection.disconnect busy waits "
+            "around real sockets, select and sleep.",
+            "DESIGN.md §3 C09"),
+})
+
 NOT_APPLICABLE = {
 }
 
